@@ -72,6 +72,12 @@ CLAIMED = {
         text="Lean theorems for any number of fields and any operators: binary derives give zipWith op lhs rhs (operand order preserved), scalar Mul-like gives field op rhs, Not/Neg map every field, *Assign equals the binary result, Sum/Product is in every field the fold of that field from the empty sum, enum arms: same variant -> Ok field-wise, equal unit variants -> unit error, different variants -> mismatch (first-arm-wins match, proved by induction over the arm list). The model's method bodies are compared token-for-token with the working-tree expansions of all 24 derives on 4800 generated items; 55 types over a tagging operand type are run with the real macro",
         note="Lean kernel; model tied by differential run; method-call / UFCS / match evaluation is the modelled fragment of Rust; impl headers and where-clauses belong to C01",
         ref="DESIGN.md §4 C10"),
+    "C08": dict(
+        level="proof",
+        technique="Lean 4 theorems about a model of from.rs / into.rs / constructor.rs (impl sets, per-field initialisers with an evaluation semantics) + token-level correspondence + values, addresses and impl presence with the real macro",
+        text="Lean theorems for any number of fields and values: the tuple impl puts component i into field i (from_ith), typed and forwarding impls apply exactly one From::from per field to the component of the same position, the impl count per attribute kind and the switching-off of un-annotated / unit variants, every Into impl extracts exactly the non-skipped fields in declaration order with one impl per listed type and reference kind, tuple->struct->tuple and struct->tuple->struct are the identity, new(..) puts argument i into field i. Impl sets and bodies of the model are compared token-for-token with the working tree on 3300 generated items; 17 type families (values, addresses of ref/ref_mut results, round trips, typed/forward conversions) and the impl sets of enums and of all splits/orders of repeated #[into] attributes are checked with the real macro",
+        note="Lean kernel; model tied by differential run; parsing of Into's conversion lists enters the model already parsed (C17/C18); impl headers' generics belong to C01",
+        ref="DESIGN.md §4 C08"),
 }
 
 NOT_APPLICABLE = {}
